@@ -17,11 +17,12 @@ from common import *
 from props.c33_util import gen_schema, S_BASIC
 
 K_CONFLICT = "inherited-field-signature-conflict"
-K_DUPOBJ = "object-extension-repeats-implements"
-K_NEST = "type-nesting-exceeds-parser-recursion-limit"
-K_TODO = "operation-field-of-union-or-custom-scalar-type-panics"
-K_RECURSE = "operation-unbounded-selection-recursion"
-K_OPDEPTH = "operation-nesting-exceeds-recursion-limits"
+# Repaired in the repository (fixes/fix2-c32-1..4.patch), no longer known classes: an object extension repeating
+# `implements` (a VIOLATION now, also through the facts oracle `duplicate-implements`), more than 500 list wrappers
+# (MAX_TY_DEPTH), the todo! panic on union / custom scalar fields, the unbounded selection recursion and operations
+# nested beyond the recursion limits (MAX_SELECTION_SET_DEPTH).  Their witnesses stay as ordinary cases
+# (corpus/C32/dup_implements.hex, nesting.hex; OP_REGRESSIONS) that have to pass.
+MAX_SELECTION_SET_DEPTH = 10    # crates/apollo-smith/src/lib.rs
 
 HEAD = "ABCDEFGHIJKLMNOPQRSTUVWXYZabcdefghijklmnopqrstuvwxyz"
 BODY = HEAD + "_0123456789"
@@ -76,17 +77,6 @@ def hb(b):
     return b.hex() or "-"
 
 
-def nesting(text):
-    depth = mx = 0
-    for ch in text:
-        if ch in "[{(":
-            depth += 1
-            mx = max(mx, depth)
-        elif ch in "]})":
-            depth -= 1
-    return mx
-
-
 def oracle_parts(o):
     """-> (observation, None | (class, detail))"""
     obs, orc = split_oracle(o)
@@ -123,29 +113,19 @@ def names_cases(ctx, quick):
 
 
 def op_schemas(rng, n):
-    """schemas whose first field is a leaf everywhere (so that generation terminates once the bytes run out),
-    without union- or custom-scalar-typed fields (known classes, exercised by OP_WITNESSES)"""
+    """generated schemas as they come: fields of union, custom scalar, interface and recursive object types; half of
+    them with a leading `id: ID` in every type (when the bytes run out every choice is the first one: these end in a
+    leaf at once, the others only at the depth bound)"""
     out = []
-    tries = 0
-    while len(out) < n and tries < 50 * n:
-        tries += 1
+    for k in range(n):
         s = gen_schema(rng)
-        ok = True
-        for name in s.order:
-            d = s.types[name]
-            if d[0] in ("object", "interface"):
-                for f, t in d[2].items():
-                    inner = re.sub(r"[\[\]!]", "", t)
-                    if s.kind(inner) == "union" or inner == "Date":
-                        ok = False
-        if not ok:
-            continue
-        for name in s.order:
-            d = s.types[name]
-            if d[0] in ("object", "interface"):
-                fields = {"id": "ID"}
-                fields.update(d[2])
-                s.types[name] = (d[0], d[1], fields)
+        if k % 2 == 0:
+            for name in s.order:
+                d = s.types[name]
+                if d[0] in ("object", "interface"):
+                    fields = {"id": "ID"}
+                    fields.update(d[2])
+                    s.types[name] = (d[0], d[1], fields)
         sdl = s.sdl()
         if not sdl.startswith("schema"):
             sdl = "schema { query: Query }\n" + sdl
@@ -153,11 +133,28 @@ def op_schemas(rng, n):
     return out
 
 
-OP_WITNESSES = [
-    (K_TODO, "schema { query: Query }\ntype Query { u: U }\ntype A { x: Int }\nunion U = A", b""),
-    (K_TODO, "schema { query: Query }\ntype Query { d: Date }\nscalar Date", b""),
-    (K_RECURSE, "schema { query: Query }\ntype Query { q: Query x: Int }", b""),
+# the witnesses of the repaired classes (panic on union / custom scalar, stack overflow on a recursive type) and
+# neighbours: recursion through an interface, a union and a list, a type without any leaf field
+OP_REGRESSIONS = [
+    "schema { query: Query }\ntype Query { u: U }\ntype A { x: Int }\nunion U = A",
+    "schema { query: Query }\ntype Query { d: Date }\nscalar Date",
+    "schema { query: Query }\ntype Query { q: Query x: Int }",
+    "schema { query: Query }\ntype Query { q: Query }",
+    "schema { query: Query }\ntype Query { n: [Node!]! }\ninterface Node { next: Node u: U }\n"
+    "type A implements Node { next: Node u: U a: A }\nunion U = A | Query",
+    "schema { query: Query subscription: S }\ntype Query { q: Query }\ntype S { s: S t: [S] }",
 ]
+
+
+def sel_depth(text):
+    depth = mx = 0
+    for ch in text:
+        if ch == "{":
+            depth += 1
+            mx = max(mx, depth)
+        elif ch == "}":
+            depth -= 1
+    return mx
 
 
 def run(ctx):
@@ -235,6 +232,8 @@ def run(ctx):
     for f in facts.values():
         for key in ("closure", "acyclic", "fields", "conflict", "dupobj", "dupiface", "spreads"):
             agg[key + "=" + f[key]] = agg.get(key + "=" + f[key], 0) + 1
+        for key in ("tydepth", "seldepth"):
+            agg["max_" + key] = max(agg.get("max_" + key, 0), int(f[key]))
         agg["with_fragments"] = agg.get("with_fragments", 0) + (f["kept"] != "-")
     ctx.cov["document_facts"] = agg
 
@@ -245,15 +244,10 @@ def run(ctx):
         cls, detail = bad
         f = facts.get(c)
         known = None
-        if cls == "parse":
-            if "recursion limit" in detail and nesting(text) >= 500:
-                known = K_NEST
-        elif cls.startswith("validate/") and f is not None:
+        if cls.startswith("validate/") and f is not None:
             kinds = set(cls[len("validate/"):].split("+"))
             if kinds <= {"InvalidImplementationFieldType", "MissingInterfaceFieldArgument"} and f["conflict"] == "1":
                 known = K_CONFLICT
-            elif kinds == {"SchemaBuildError.DuplicateImplementsInterfaceInObject"} and f["dupobj"] == "1":
-                known = K_DUPOBJ
         if known and ctx.known_hit(known):
             fam["known"] += 1
             continue
@@ -266,44 +260,51 @@ def run(ctx):
         ctx.sample({"family": "smith_document", "bytes": len(c) // 2, "document": text[:300]}, limit=5)
 
     # ---- (4) operations against parsed schemas
-    schemas = ["schema { query: Query }\n" + re.sub(r"search: \[Result\]! ", "", S_BASIC).replace(" d: Date", "")]
+    schemas = ["schema { query: Query }\n" + S_BASIC]
     schemas += op_schemas(rng, 12 if quick else 150)
     ocases = []
     for s in schemas:
         for _ in range(40 if quick else 300):
             ocases.append(f"{hb(gen_bytes(rng, 512))} {hexs(s)}")
-    wit = [f"{hb(b)} {hexs(s)}" for _, s, b in OP_WITNESSES]
-    outs = run_family(impl, "smith_operation", ocases) + run_family(impl, "smith_operation", wit, shards=len(wit))
-    ofam = ctx.cov["families"].setdefault("smith_operation", {"cases": 0, "operations": 0, "valid": 0, "none_or_exhausted": 0, "known": 0})
-    wit_class = {w: k for w, (k, _, _) in zip(wit, OP_WITNESSES)}
-    for c, o in zip(ocases + wit, outs):
+    # the repaired witnesses: no bytes (every choice is the first one), few bytes, and long byte strings that used
+    # to nest operations beyond the validator's and the parser's recursion limits
+    for s in OP_REGRESSIONS + schemas[:3]:
+        ocases.append(f"{hb(b'')} {hexs(s)}")
+        for _ in range(6 if quick else 60):
+            ocases.append(f"{hb(gen_bytes(rng, 64))} {hexs(s)}")
+        for _ in range(6 if quick else 60):
+            m = rng.choice([600, 1200, 2400, 4096])
+            pat = bytes(rng.randrange(256) for _ in range(rng.randint(1, 5)))
+            b = rng.choice([bytes(rng.randrange(256) for _ in range(m)), (pat * m)[:m],
+                            bytes(rng.choice([0, 1, 2, 3, 255]) for _ in range(m))])
+            ocases.append(f"{hb(b)} {hexs(s)}")
+    outs = run_family(impl, "smith_operation", ocases)
+    ofam = ctx.cov["families"].setdefault("smith_operation", {"cases": 0, "operations": 0, "valid": 0, "none_or_exhausted": 0, "max_depth": 0, "at_depth_bound": 0, "typename_only": 0})
+    for c, o in zip(ocases, outs):
         ofam["cases"] += 1
         obs, bad = oracle_parts(o)
         ctx.note_case("smith_operation " + c, obs.startswith("op"))
+        sdl = unhexs(c.split(" ")[1])
         if obs.startswith("op "):
             ofam["operations"] += 1
+            optext = unhexs(obs.split(" ")[1])
+            d = sel_depth(optext)
+            ofam["max_depth"] = max(ofam["max_depth"], d)
+            ofam["at_depth_bound"] += d == MAX_SELECTION_SET_DEPTH
+            ofam["typename_only"] += "__typename" in optext
+            if d > MAX_SELECTION_SET_DEPTH and bad is None:
+                bad = ("depth", f"selection sets nest {d} deep, the generator's bound is {MAX_SELECTION_SET_DEPTH}")
         if bad is None and (obs.startswith("op ") or obs in ("none", "exhausted")):
             ofam["valid" if obs.startswith("op ") else "none_or_exhausted"] += 1
             continue
-        known = None
-        sdl = unhexs(c.split(" ")[1])
-        if obs.startswith("panic") and "need to implement for union, scalar" in unhexs(obs.split(" ")[1]) \
-                and re.search(r"\bunion\b|\bscalar\b", sdl):
-            known = K_TODO
-        elif obs.startswith("died") and wit_class.get(c) == K_RECURSE:
-            known = K_RECURSE
-        elif bad and bad[0].startswith("validate/") and nesting(unhexs(obs.split(" ")[1])) >= 32:
-            kinds = set(bad[0][len("validate/"):].split("+"))
-            if kinds & {"RecursionLimitError", "ParserLimit"} and \
-                    kinds <= {"RecursionLimitError", "ParserLimit", "MissingSubselection"}:
-                known = K_OPDEPTH
-        if known and ctx.known_hit(known):
-            ofam["known"] += 1
-            continue
         ctx.oracle_failures += 1
         ctx.violation({"family": "smith_operation", "case": c, "impl": o[:3000], "schema": sdl[:3000],
+                       "class": bad[0] if bad else obs.split(" ")[0],
+                       "diagnostic": bad[1][:600] if bad else
+                       (unhexs(obs.split(" ")[1])[:600] if obs.startswith("panic ") else obs[:200]),
                        "operation": unhexs(obs.split(" ")[1])[:3000] if obs.startswith("op ") else None,
-                       "what": "the operation generated against the parsed schema is not valid against it"})
+                       "what": "the operation generated against the parsed schema is not valid against it "
+                               "(or the generator panicked / died / exceeded its depth bound)"})
 
     ctx.cov["rule"] = (
         "smith_names: every byte string of length <= 3 over 12 class representatives (size / charset boundaries, the "
@@ -312,7 +313,9 @@ def run(ctx):
         f"smith_document: {ndocs} byte strings of length 0-4096 from eight distributions (uniform, mostly 0x00, mostly "
         "0xff, repeated 1-6 byte patterns, boundary bytes, zero prefix + uniform, zero runs with random bursts, zero "
         "prefix + half-zero uniform), the corpus seeds and single-byte neighbours of them plus corpus/C32; smith_facts: every generated document that "
-        "parses; smith_operation: generated schemas x random bytes (<= 512) plus one witness per known panic class.  "
+        "parses; smith_operation: generated schemas (union, custom scalar, interface and recursive object fields) x "
+        "random bytes (<= 512), plus the witnesses of the repaired panic / stack overflow / nesting classes and "
+        "neighbours with no, few and 600-4096 bytes.  "
         "A document case is non-trivial if a document is returned.")
     ctx.cov["exhaustive"] = False
     ctx.assumptions += [
